@@ -1,6 +1,7 @@
 import SaModel.Build.Finish
 import SaModel.Lemmas.C18Assembled
 import SaModel.Lemmas.C18ReadAs
+import SaModel.Lemmas.C18Push
 /-
 C18 — every conversion error names the field that caused it (serializer side).
 Errors carry annotations exactly as `ContextSupport::ctx` builds them: a context annotates only an error that
@@ -164,6 +165,73 @@ example :
         ("$.orders.element.price", "Int32"), ("$.orders.element.", "Utf8"),
         ("$.m", "Map(..)"), ("$.m.<empty>.key", "Utf8"), ("$.m.<empty>.value", "Dictionary(..)"),
         ("$.m.<empty>.value.key", "Int8"), ("$.m.<empty>.value.value", "Utf8")] := by decide
+
+/-! ## where an error of `push` can point (builder half)
+
+`ExtPlain ext`: the functions of other crates the builders call (date / time / decimal parsers, float formatting)
+return plain errors — they cannot know serde_arrow's annotations.  `ExtPlain {}` holds for the default `Ext`. -/
+
+/-- **push_error_position.** For every builder family, every builder state and every serde value: an annotated
+error `push` returns carries exactly the annotation (`field` = path, `data_type` = label) of one builder of the
+subtree of `b` — `b` itself or a builder below it; never a sibling, never one outside.  (With `push_not_plain`:
+every error is annotated, so every `Err` of `push` names such a builder.) -/
+theorem push_error_position (ext : Ext) [ExtPlain ext] (x : SVal) (b : B) (msg : String) (ann : List (String × String))
+    (h : push ext b x = .error (.errCtx msg ann)) :
+    ∃ q ∈ positions b, ann = [("data_type", q.2), ("field", q.1)] :=
+  push_within ext x b msg ann h
+
+/-- rows pushed successfully do not move any builder: the positions are those of the fresh tree -/
+theorem foldl_push_positions (ext : Ext) : ∀ (rows : List SVal) (b0 b : B), rows.foldlM (push ext) b0 = .ok b →
+    positions b = positions b0
+  | [], b0, b, h => by simp [List.foldlM, pure, Except.pure] at h; subst h; rfl
+  | x :: rest, b0, b, h => by
+    simp only [List.foldlM] at h
+    obtain ⟨b1, h1, h⟩ := (Build.bind_ok _ _ _).1 h
+    rw [foldl_push_positions ext rest b1 b h, positions_of_takeRest (push_takeRest ext x b0 b1 h1)]
+
+/-- **push_error_position, schema form.** A builder created by `build_builder` at `path` for a field of type
+`dt`, after any number of successfully pushed rows: an error of the next `push` names `path` extended by the child
+names of a position of the schema (`segsDT`), and `data_type` is the label of the builder family at that position. -/
+theorem push_error_in_schema (ext : Ext) [ExtPlain ext] (dt : DataType) (path : String) (nullable : Bool) (md : Metadata)
+    (b0 : B) (h0 : newDT path dt nullable md = .ok b0) (rows : List SVal) (b : B)
+    (hb : rows.foldlM (push ext) b0 = .ok b) (x : SVal) (e : Fail) (h : push ext b x = .error e) :
+    (∃ site, e = .panic site) ∨
+    ∃ msg segs label, (segs, label) ∈ segsDT dt md ∧
+      e = .errCtx msg [("data_type", label), ("field", render path segs)] := by
+  cases e with
+  | panic s => exact .inl ⟨s, rfl⟩
+  | err msg => exact absurd h (push_not_plain ext x b msg)
+  | errCtx msg ann =>
+    obtain ⟨q, hq, rfl⟩ := push_error_position ext x b msg ann h
+    rw [foldl_push_positions ext rows b0 b hb] at hq
+    obtain ⟨segs, hs, hr⟩ := positions_below dt path nullable md b0 h0 q hq
+    exact .inr ⟨msg, segs, q.2, hs, by rw [hr]⟩
+
+/-- the same for the root builder of `to_marrow` / `ArrayBuilder`: `$`-rooted paths of the record schema -/
+theorem push_error_in_record (ext : Ext) [ExtPlain ext] (fields : List Field) (root0 : B) (h0 : newRoot fields = .ok root0)
+    (rows : List SVal) (root : B) (hb : rows.foldlM (push ext) root0 = .ok root) (x : SVal) (e : Fail)
+    (h : push ext root x = .error e) :
+    (∃ site, e = .panic site) ∨
+    ∃ msg segs label, (segs, label) ∈ segsDT (.struct (Fields.ofList fields)) [] ∧
+      e = .errCtx msg [("data_type", label), ("field", render "$" segs)] := by
+  cases e with
+  | panic s => exact .inl ⟨s, rfl⟩
+  | err msg => exact absurd h (push_not_plain ext x root msg)
+  | errCtx msg ann =>
+    obtain ⟨q, hq, rfl⟩ := push_error_position ext x root msg ann h
+    rw [foldl_push_positions ext rows root0 root hb, paths_assembled_root fields root0 h0, List.mem_map] at hq
+    obtain ⟨s, hs, rfl⟩ := hq
+    exact .inr ⟨msg, s.1, s.2, hs, rfl⟩
+
+/-- non-vacuity: `{orders: List<element: Struct{price: Int32}>}`, one good row, then a row whose second order has a
+string where the price should be: the error names `$.orders.element.price` / `Int32` — not `$.orders`, not `$` -/
+example :
+    (do let root ← newRoot [.mk "orders" (.list (.mk "element" (.struct (.cons (.mk "price" .int32 false []) .nil)) false [])) false []]
+        let root ← push {} root (.record "R" (.cons "orders" 0 (.seq (.cons (.record "O" (.cons "price" 0 (.int .i32 5) .nil)) .nil)) .nil))
+        push {} root (.record "R" (.cons "orders" 0 (.seq (.cons (.record "O" (.cons "price" 0 (.int .i32 6) .nil))
+          (.cons (.record "O" (.cons "price" 0 (.str "seven") .nil)) .nil))) .nil))) =
+      .error (.errCtx "serialize_str is not supported" [("data_type", "Int32"), ("field", "$.orders.element.price")]) := by
+  decide
 
 /-! ## reader half
 
